@@ -138,8 +138,24 @@ ODD_BUT_VALID_JWTS = {
     "@Jaudstr@": dict(_OKD, aud=["api", "web"], rawclaims=[["aud", '"api web"']]),
     "@Jexpnull@": dict(_OKD, rawclaims=[["exp", "null"]]),
 }
+# Found, well-formed JWTs whose ISSUER cannot stand in a URL: where the JWKS / metadata / introspection endpoint is a
+# template over {{ .TokenIssuer }} (documented: "the path part of the url can be templated") no request to the endpoint can
+# be created for them. Self-made tokens (an unpublished key) and tokens signed by a published key alike.
+ISS_ODD_OK = "tenant a/x?y=%zz"       # a blank, a slash, a query with a bad escape: odd, but a request can be made
+URL_HOSTILE_JWTS = {
+    "@Jisspct@": {"key": "rogue", "kid": "k1", "iss": "%zz", "sub": "mallory", "exp": 3600, "aud": ["api"]},
+    "@Jisstrail@": {"key": "k1", "kid": "k1", "iss": "tenant-a%", "sub": "alice", "exp": 3600, "aud": ["api"]},
+    "@Jissshort@": {"key": "rogue", "kid": "", "iss": "realm%2", "sub": "mallory", "exp": 3600, "aud": ["api"]},
+    "@Jissctl@": {"key": "rogue", "kid": "k1", "iss": "tenant\x7f", "sub": "mallory", "exp": 3600, "aud": ["api"]},
+    "@Jissnl@": {"key": "k2", "kid": "k2", "iss": "tenant\nX-Injected: 1", "sub": "bob", "exp": 3600, "aud": ["api"]},
+    "@Jissfrag@": {"key": "k1", "kid": "", "iss": "t#%zz", "sub": "nokid", "exp": 3600, "aud": ["api"]},
+    # controls: odd issuers a request can be created for
+    "@Jissodd@": {"key": "k1", "kid": "k1", "iss": ISS_ODD_OK, "sub": "erin", "exp": 3600, "aud": ["api"]},
+    "@Jisslong@": {"key": "k1", "kid": "k1", "iss": "t" * 3000, "sub": "alice", "exp": 3600, "aud": ["api"]},
+}
 JWTS.update(UNDECODABLE_JWTS)
 JWTS.update(ODD_BUT_VALID_JWTS)
+JWTS.update(URL_HOSTILE_JWTS)
 
 # other spellings of tokens that are valid in their canonical spelling (go-jose decodes them to the same octets)
 for _name in ("ok", "ok2", "nokid"):
@@ -187,6 +203,9 @@ INTRO = {
                  "rawclaims": [["exp", "1893456000000000"]], "decode": DEC_RANGE},
     "@Jbadsig@": {"active": False},
     "@Jexpired@": {"active": False},
+    # JWTs used as opaque tokens whose issuer is hostile to a URL (the endpoint URL may be a template over it)
+    "@Jisstrail@": {"active": True, "sub": "alice", "iss": ISS_GOOD, "exp": 3600, "aud": ["api"]},
+    "@Jissodd@": {"active": True, "sub": "erin", "iss": ISS_GOOD, "exp": 3600, "aud": ["api"]},
 }
 INTRO = expand(INTRO)
 
@@ -208,7 +227,18 @@ IDENT = {
     "sess-500": {"status": 500},
     "sess-text": {"body": "text"},
     "opq-alice": {"sub": "alice-g"},
+    # sessions whose reference is hostile to a URL (the identity endpoint's URL may be a template over it): known ones
+    "s-4711%": {"sub": "gina"},
+    "s 4711://x?y=%zz": {"sub": "gina"},
 }
+
+# Credentials that are FOUND (present, well-formed for the extractor) and whose value cannot stand in a URL resp. in a
+# header: invalid percent escapes, control characters, a fragment with a bad escape. Where the endpoint's URL / a header
+# of the request is a template over the credential, the request cannot be created resp. is refused by net/http before
+# it is sent. COOKIE_SAFE ones survive net/http's cookie parser (and a header line on the wire).
+URL_HOSTILE = ["%zz", "s-4711%", "%2", "abc%G1def", "sess-carol#%zz", "key7.%zz", "se\x01ss", "a\nX-Injected: 1", "a\tb"]
+URL_ODD_OK = ["s 4711://x?y=%zz", "sess carol", "a://b", "sess-carol#frag", "sess-carol?x=%zz", "sess%2Fcarol",
+              "../identity/500", "x" * 3000]
 
 
 def b64(s):
@@ -287,6 +317,110 @@ def _ep_fail(mech, unreachable, status, unparsable):
     return None
 
 
+# ---- endpoint URLs / headers that are templates over the credential (generic: {{ .AuthenticationData }}) resp. over
+# the issuer named by the token (jwt, oauth2_introspection: {{ .TokenIssuer }})
+#   utpl: "path"  <url>/s/{{ V }}          "mid" <url>/s/{{ V }}/info       "query" <url>?s={{ V }}  (generic only)
+#         "enc"   <url>/s/{{ urlenc V }}   "fn"  <url>/s/{{ atIndex 1 (splitList "." V) }}            (generic only)
+#   htpl: a header of the request, X-Credential-Ref: {{ V }}
+# What the value does to the request is decided by net/url, net/http (ground truth by construction: url.Parse refuses
+# control characters in front of the fragment and invalid percent escapes in path and fragment; it does not look at
+# the query; net/http refuses to send a header value containing a control character; a blank in the raw query breaks
+# the request line, which the server answers with 400).
+URL_TEMPLATE_ASSUMPTION = (
+    "endpoint URLs / headers that are templates over the credential (generic) or the token's issuer (jwt, "
+    "oauth2_introspection): which rendered URLs http.NewRequestWithContext refuses (control characters in front of the "
+    "fragment, invalid percent escapes in path and fragment; the query is not looked at), which header values net/http "
+    "refuses to send (control characters other than tab) and that a blank in the raw query yields a 400 is part of the "
+    "generator's ground truth (gen_authn.url_effect / hdr_hostile), compared with the real net/url, net/http and "
+    "endpoint.CreateRequest on every run; control characters reach an authenticator through query / body parameters "
+    "and the iss claim only; a header template without a URL template is not combined with a cache for jwt / "
+    "oauth2_introspection (a cached key / metadata document is reused without a request)")
+UTPL = {"generic": ["path", "path", "mid", "query", "enc", "fn"], "jwt": ["path", "mid", "mid", "enc"],
+        "oauth2_introspection": ["path", "mid", "enc"]}
+REQ_CAUSE = chain(kind("internal"), FOREIGN)     # endpoint.CreateRequest: "failed to create a request instance" / "failed to render URL"
+_HEX = set("0123456789abcdefABCDEF")
+
+
+def _bad_escape(s):
+    i = 0
+    while i < len(s):
+        if s[i] == "%":
+            h = s[i + 1:i + 3]
+            if len(h) != 2 or any(x not in _HEX for x in h):
+                return True
+            i += 3
+        else:
+            i += 1
+    return False
+
+
+def _ctl(c):
+    return ord(c) < 0x20 or ord(c) == 0x7f
+
+
+def url_effect(pos, value):
+    """what rendering `value` into the endpoint URL at `pos` does to the request: None (a request is made),
+    "unmakable" (rendering or http.NewRequestWithContext fails), "badline" (the request line is malformed: 400)"""
+    if not pos or pos == "enc":
+        return None
+    if pos == "fn":
+        parts = value.split(".")
+        if len(parts) < 2:
+            return "unmakable"
+        value, pos = parts[1], "path"
+    rest = {"path": "/s/" + value, "mid": "/s/" + value + "/info", "query": "?s=" + value}[pos]
+    u, _, frag = rest.partition("#")
+    if any(_ctl(c) for c in u):
+        return "unmakable"
+    path, _, query = u.partition("?")
+    if _bad_escape(path) or (frag != "" and _bad_escape(frag)):
+        return "unmakable"
+    if " " in query:
+        return "badline"
+    return None
+
+
+def hdr_hostile(value):
+    """httpguts.ValidHeaderFieldValue refuses it"""
+    return any(_ctl(c) and c != "\t" for c in value)
+
+
+def _tpl_fail(mech, rendered, failed_meta, request_failed, unreachable, status):
+    """the failure caused by rendering the credential / its issuer into the URL or a header of the request to the
+    (metadata) endpoint, if any: (site, cause)"""
+    if rendered is None or not (mech.get("utpl") or mech.get("htpl")):
+        return None
+    eff = url_effect(mech.get("utpl"), rendered)
+    bad_header = bool(mech.get("htpl")) and hdr_hostile(rendered)
+    if mech.get("meta"):
+        # the metadata endpoint carries the template; MetadataEndpoint.Get wraps what went wrong
+        if eff == "unmakable":
+            return (failed_meta, chain(kind("internal"), REQ_CAUSE))
+        if bad_header:
+            return (failed_meta, chain(kind("communication"), FOREIGN))
+        if eff == "badline":
+            return (failed_meta, chain(kind("communication")))
+        return None
+    if eff == "unmakable":
+        return (request_failed, REQ_CAUSE)
+    if bad_header or mech.get("ep") == "dead":
+        return (unreachable, FOREIGN)
+    if eff == "badline":
+        return (status, None)
+    return None
+
+
+def rendered_issuer(tok, no_claims):
+    """what {{ .TokenIssuer }} renders to for a token (no_claims: what stands there if the token is no JWT)"""
+    desc = JWTS.get(tok)
+    if desc is None or desc.get("payload") == "text":
+        return no_claims
+    for name, raw in desc.get("rawclaims", []):
+        if name == "iss":
+            return raw if not raw.startswith('"') else json.loads(raw)
+    return desc.get("iss", "<no value>")
+
+
 def verdict(site_cause=None, ok=None):
     if ok is not None:
         return {"ok": ok}
@@ -302,7 +436,8 @@ def jwt_verdict(tok, mech):
     desc = JWTS[tok]
     if desc.get("payload") == "text":
         return verdict(("claimsUnreadable", FOREIGN))
-    f = _meta_fail(mech, "metadataFailed", "noJwksUri") or \
+    f = _tpl_fail(mech, rendered_issuer(tok, None), "metadataFailed", "requestFailed", "jwksUnreachable", "jwksStatus") or \
+        _meta_fail(mech, "metadataFailed", "noJwksUri") or \
         _ep_fail(mech, "jwksUnreachable", "jwksStatus", "jwksUnparsable")
     if f:
         return verdict(f)
@@ -321,7 +456,12 @@ def jwt_verdict(tok, mech):
 
 
 def intro_verdict(tok, mech):
-    f = _meta_fail(mech, "metadataFailed", "noEndpoint") or _ep_fail(mech, "unreachable", "status", "unmarshal")
+    # a token of JWT form (in whatever spelling go-jose reads) names its issuer; for any other token the URL of the
+    # introspection endpoint is used as it is written, the metadata endpoint's is rendered without a value
+    rendered = rendered_issuer(tok, "<no value>" if mech.get("meta") else
+                               "{{ urlenc .TokenIssuer }}" if mech.get("utpl") == "enc" else "{{ .TokenIssuer }}")
+    f = _tpl_fail(mech, rendered, "metadataFailed", "requestFailed", "unreachable", "status") or \
+        _meta_fail(mech, "metadataFailed", "noEndpoint") or _ep_fail(mech, "unreachable", "status", "unmarshal")
     if f:
         return verdict(f)
     spec = INTRO.get(tok)
@@ -348,7 +488,13 @@ def gen_verdict(val, mech):
         parts = val.split(".")
         if len(parts) < 2:
             return verdict(("payloadRender", chain(FOREIGN, FOREIGN)))
-        val = parts[1]
+        full, val = val, parts[1]
+    else:
+        full = val
+    # the URL / a header of the request to the identity endpoint rendered with the credential
+    f = _tpl_fail(mech, full, None, "requestFailed", "unreachable", "status")
+    if f:
+        return verdict(f)
     ep = mech.get("ep", "ok")
     if ep == "dead":
         return verdict(("unreachable", FOREIGN))
@@ -635,6 +781,16 @@ def gen_mech(rng, idx, typ=None):
         m["ep"] = ep
         if rng.random() < 0.2:
             m["tpl"] = True       # api keys <id>.<secret>: the payload template picks the secret with atIndex
+    # the URL of the (metadata) endpoint / a header of the request to it is a template over the credential resp. over
+    # the issuer the token names
+    if typ not in UTPL:
+        return m
+    if rng.random() < 0.3:
+        m["utpl"] = rng.choice(UTPL[typ])
+        if typ != "generic" and rng.random() < 0.5:
+            m["iss"] = m["iss"] + [ISS_ODD_OK]
+    if rng.random() < 0.12:
+        m["htpl"] = True
     return m
 
 
@@ -656,6 +812,11 @@ def credential_for(rng, m):
         if r < 0.3:
             return b64(m["user"] + ":" + m["pass"])
         return rng.choice(BASIC_VALUES)
+    # values hostile to a URL / a header: often where the endpoint is a template over them, now and then elsewhere
+    if t in UTPL and rng.random() < (0.35 if m.get("utpl") or m.get("htpl") else 0.03):
+        if t == "generic":
+            return rng.choice(URL_HOSTILE + URL_HOSTILE + URL_ODD_OK)
+        return rng.choice(sorted(PH(k[2:-1]) for k in URL_HOSTILE_JWTS))
     if t == "jwt":
         if r < 0.25:
             return PH(rng.choice(["ok", "ok2", "nokid", "nokid2"]))
@@ -816,6 +977,11 @@ def rawify(rng, req):
         del req["cookies"]
 
 
+def wire_safe(v):
+    """the value survives net/http's cookie parser and can stand in a header line on the wire"""
+    return all(0x20 <= ord(c) < 0x7f and c not in '";\\' for c in v)
+
+
 def gen_request(rng, mechs_in_chain, all_mechs):
     req = {"method": "GET", "headers": [], "query": [], "cookies": [], "_body": []}
     n = rng.choice([0, 1, 1, 1, 1, 2, 2, 3])
@@ -828,6 +994,9 @@ def gen_request(rng, mechs_in_chain, all_mechs):
         else:
             src = rng.choice(srcs)
             value = credential_for(rng, target)
+            if src["k"] in ("cookie", "header") and not wire_safe(value):
+                # control characters reach an authenticator through query and body parameters only
+                value = rng.choice([v for v in URL_HOSTILE if wire_safe(v)])
         place(rng, req, src, value)
     if rng.random() < 0.1:
         req["headers"].append(["X-Unrelated", "1"])
@@ -893,6 +1062,12 @@ def gen_case(rng, n_reqs=12, max_len=5):
     reqs = [gen_request(rng, in_chain, mechs) for _ in range(n_reqs)]
     cache = rng.random() < 0.5
     if cache:
+        # a cached key / metadata document is reused without a request: whether a header rendered from the issuer
+        # is refused by net/http would depend on what earlier requests left in the cache unless the URL (part of the
+        # cache key) is rendered from the issuer too — no ground truth by construction, not generated
+        for m in mechs:
+            if m["type"] in ("jwt", "oauth2_introspection") and m.get("htpl") and not m.get("utpl"):
+                del m["htpl"]
         # repeat some requests so that cached keys / introspection responses / identities are hit
         for _ in range(rng.choice([2, 4, 6])):
             reqs.append(json.loads(json.dumps(rng.choice(reqs))))
@@ -984,3 +1159,82 @@ def small_scope_cases(lengths=(2,), with_override=False):
                         reqs.append(req)
                 cases.append(assemble(mechs, steps, reqs))
     return cases
+
+
+# ---------------------------------------------------------------------------------------------------------------
+# systematic: endpoints whose URL / headers are templates over the credential (the issuer of the token), followed by
+# `anonymous`: every placement x fallback settings x credentials that are found and cannot stand in a URL / a header
+
+def _rq(headers=(), query=(), cookies=()):
+    return {"method": "GET", "headers": [list(h) for h in headers], "query": [list(q) for q in query],
+            "cookies": [list(c) for c in cookies]}
+
+
+def url_template_cases(with_override=True):
+    cases = []
+    anon = _std_mech("anonymous", 9, None)
+    hostile_jwts = sorted(PH(k[2:-1]) for k in URL_HOSTILE_JWTS)
+    variants = []
+    for pos in ["path", "mid", "query", "enc", "fn", None]:
+        variants.append(("generic", dict(utpl=pos) if pos else dict(htpl=True)))
+    for typ in ("jwt", "oauth2_introspection"):
+        for meta in (None, "ok"):
+            for pos in ["path", "mid", "enc", None]:
+                variants.append((typ, dict(meta=meta, **(dict(utpl=pos) if pos else dict(htpl=True)))))
+    for typ, extra in variants:
+        for fb in (None, False, True):
+            for inverted in ((False, True) if with_override else (False,)):
+                m = dict(_std_mech(typ, 0, fb), **{k: v for k, v in extra.items() if v is not None})
+                if typ == "generic":
+                    m["src"] = [{"k": "cookie", "name": "sess"}, {"k": "query", "name": "token"}]
+                    vals = ["sess-carol", "sess-401"] + URL_HOSTILE + URL_ODD_OK + ["key7.sess-carol"]
+                    reqs = [_rq(cookies=[("sess", v)]) if wire_safe(v) else _rq(query=[("token", v)]) for v in vals]
+                else:
+                    m["iss"] = [ISS_GOOD, ISS_ODD_OK]
+                    hdr = "Authorization" if typ == "jwt" else "X-Token"
+                    toks = [PH("ok"), PH("badsig"), "opq-alice", "opq-inactive"] + hostile_jwts
+                    reqs = [_rq([(hdr, "Bearer " + t)]) for t in toks]
+                reqs.append(_rq())
+                steps = [{"ref": "a0"}, {"ref": "a9"}]
+                if inverted:
+                    steps[0]["fb"] = not m.get("fb", False)
+                cases.append(assemble([m, anon], steps, reqs))
+    return cases
+
+
+def url_template_named_cases():
+    """the cases stored as corpus/C04/29… – 31…"""
+    anon = _std_mech("anonymous", 9, None)
+    res = {}
+    gen = dict(_std_mech("generic", 0, None), src=[{"k": "cookie", "name": "session"}], lifespan=False, utpl="path")
+    res["29_seed_session_that_cannot_stand_in_the_endpoint_url_is_not_missing_credentials"] = assemble(
+        [gen, anon], [{"ref": "a0"}, {"ref": "a9"}],
+        [_rq(cookies=[("session", v)]) for v in ("%zz", "s-4711%", "%2", "abc%G1def", "sess-carol", "sess-401",
+                                                 "s 4711://x?y=%zz")] + [_rq()],
+        "minimal reproduction of seed s4eval/C04-b (Endpoint.CreateRequest types the failure of "
+        "http.NewRequestWithContext as ErrArgument if the URL became unusable by rendering): the identity endpoint is "
+        "<url>/s/{{ .AuthenticationData }}; a session cookie whose value is an invalid percent escape is FOUND, no "
+        "request to the identity endpoint can be created for it (internal error) — a rejection, final without "
+        "allow_fallback_on_error; anonymous must not be consulted. Known, unknown, odd-but-usable and missing cookies as "
+        "controls")
+    jwt = dict(_std_mech("jwt", 0, None), utpl="mid", iss=[ISS_GOOD, ISS_ODD_OK])
+    toks = sorted(PH(k[2:-1]) for k in URL_HOSTILE_JWTS)
+    res["30_seed_issuer_that_cannot_stand_in_the_jwks_url_is_not_missing_credentials"] = assemble(
+        [jwt, anon], [{"ref": "a0"}, {"ref": "a9"}],
+        [_rq([("Authorization", "Bearer " + t)]) for t in toks + [PH("ok"), PH("evil")]] + [_rq()],
+        "the key set of a tenant is published at <url>/s/{{ .TokenIssuer }}/info: tokens (self-made ones and ones signed "
+        "by a published key) whose iss is `%zz`, `tenant-a%`, `realm%2`, contains DEL / a line break or a fragment with a "
+        "bad escape are JWTs — found, parsed — for which no JWKS request can be created: a rejection, final although "
+        "anonymous follows (second demo of seed s4eval/C04-b). An issuer with a blank, a slash and a query (trusted) and "
+        "a 3000 character issuer as controls")
+    intro = dict(_std_mech("oauth2_introspection", 0, None), src=None, meta="ok", utpl="path", htpl=True)
+    res["31_issuer_that_cannot_stand_in_the_metadata_url_or_a_header_is_a_rejection"] = assemble(
+        [intro, dict(gen, id="a1", src=[{"k": "query", "name": "token"}], utpl="query", htpl=True), anon],
+        [{"ref": "a0"}, {"ref": "a1"}, {"ref": "a9"}],
+        [_rq([("Authorization", "Bearer " + t)]) for t in toks + [PH("ok"), "opq-alice"]]
+        + [_rq(query=[("token", v)]) for v in URL_HOSTILE + URL_ODD_OK[:3]] + [_rq()],
+        "introspection with a metadata endpoint <url>/s/{{ .TokenIssuer }} and a header X-Credential-Ref: {{ .TokenIssuer "
+        "}}; generic with <url>?s={{ .AuthenticationData }} and the same header: a control character in the value makes "
+        "url.Parse resp. net/http refuse the request before it is sent, a blank in the query makes the server refuse the "
+        "request line; the query is not checked for escapes. Whatever goes wrong after the credential was found is final")
+    return res
